@@ -22,7 +22,12 @@ CFG = {
             "read complete?, client gone, saw EOF, close_returned(result), waiter released(result), "
             "connect-after-close result), judged in Coq: the property clauses evaluated on the log (spec) and "
             "acceptance by the shutdown model with the unobservable server-internal steps placed. Non-trivial: "
-            "at least one connection or waiter; distinct by scenario script. Transports: transport:h1 (raw TCP, all "
+            "at least one connection or waiter; distinct by scenario script. In-flight handlers come in two "
+            "spellings: one keeps its RequestContext to the end, the other (conn:*-context-dropped, endpoint "
+            "/d/{id}) clones what it needs, drops the RequestContext - and the Arc<DropshotState> in it - and "
+            "then does its held work; the second is used for gone-client handlers alone, among others, via "
+            "close() and via drop, on every transport (3 more fixed scenarios per mode and transport, a third to "
+            "a half of the in-flight connections of mixed scenarios). Transports: transport:h1 (raw TCP, all "
             "scripts), and - for the scripts that need no raw request bytes (idle, keep-alive, in flight, gone, "
             "late) - transport:h2 (cleartext HTTP/2, prior knowledge, one connection per request) and "
             "transport:tls (HTTP/1.1 over TLS): per mode 11 fixed scenarios each, quick 3 mixed each (4-16 "
